@@ -731,6 +731,11 @@ func TestOwnership(t *testing.T) {
 		time.Sleep(3 * time.Millisecond)
 		return c.SendString(c.Params("id") + ":" + padding)
 	})
+	// a response the client's own response hook rejects (unparsable Set-Cookie): the request fails after its response arrived
+	app.Get("/badcookie/:id", func(c fiber.Ctx) error {
+		c.Set("Set-Cookie", "sid=1; Max-Age=abc")
+		return c.SendString(c.Params("id") + ":rejected")
+	})
 	ln := fasthttputil.NewInmemoryListener()
 	go func() { _ = app.Listener(ln, fiber.ListenConfig{DisableStartupMessage: true}) }()
 	defer func() { _ = app.Shutdown() }()
@@ -778,6 +783,17 @@ func TestOwnership(t *testing.T) {
 						resp.Close()
 					}
 					vk.Rec.Count("ownership", uint64(g)<<32|uint64(i), true, []string{"failing-transport"}, func() any { return map[string]any{"id": id, "host": host, "timeout_us": to.Microseconds()} })
+					continue
+				}
+				if (g*11+i*17+seed)%10 == 9 {
+					// through the client's convenience method (it owns the pooled Request); a late hook failure must not
+					// leave that Request shared with later requests
+					resp, err := cl.Get("http://example.com/badcookie/"+id, client.Config{Timeout: 2 * time.Second})
+					atomic.AddInt64(&failing, 1)
+					if err == nil {
+						resp.Close()
+					}
+					vk.Rec.Count("ownership", uint64(g)<<32|uint64(i), true, []string{"response-hook-fails"}, func() any { return map[string]any{"id": id} })
 					continue
 				}
 				resp, err := cl.R().SetTimeout(to).Get("http://example.com/" + id)
